@@ -271,7 +271,7 @@ def run(pid, tier, seed, rundir, model_run):
             if direction in ("local", "pull") and not longlist:
                 for p in sorted(transferred):
                     tpaths = [os.path.join(droot, p), os.path.join(droot, p) + ".copia-tmp"]
-                    for sc in ("openat", "write", "pwrite64", "copy_file_range", "sendfile", "rename", "ftruncate", "fchmod", "utimensat", "fsync"):
+                    for sc in ("openat", "write", "pwrite64", "copy_file_range", "sendfile", "rename", "ftruncate", "fchmod", "utimensat", "fsync", "link", "linkat", "unlink", "unlinkat"):
                         for j in (1, 2, 3):
                             restore()
                             kr = subprocess.run(["strace", "-f", "-b", "execve", "-qq", "-o", "/dev/null", "-P", tpaths[0], "-P", tpaths[1], "-e", f"trace={sc}",
@@ -289,6 +289,14 @@ def run(pid, tier, seed, rundir, model_run):
                             for q in dst:
                                 if q not in after and q not in deleted:
                                     res["violations"].append(("destination-file-missing-after-kill", f"after the kill, destination {q} is missing", rep))
+                            try:
+                                nl = os.stat(os.path.join(droot, p)).st_nlink
+                            except OSError:
+                                nl = 1
+                            if nl > 1:
+                                # a live path that is one inode with its staging sibling: the next delivery, which truncates and
+                                # refills the staging NAME, rewrites the live file in place (seed C09-L: publish by link + unlink)
+                                res["violations"].append(("live-path-shares-inode-with-staging", f"after the kill, destination {p} has link count {nl}: it is the same file as a staging name, so the next run's staging write goes straight into the live path", rep))
                             rr = subprocess.run(cmd, env=sb.env, cwd=sb.dir, stdout=subprocess.PIPE, stderr=subprocess.PIPE)
                             again = read_tree(droot)
                             if rr.returncode != 0 or nonstaging(again) != nonstaging(fin):
